@@ -166,6 +166,8 @@ class Universe:
         self.classes: Dict[str, type] = {}
         self.feature_group_of: Dict[str, str] = {}
         self.fail: Set[Tuple[str, str]] = set()          # (group, feature) -> raise in calculate_feature
+        self.fail_once: Set[Tuple[str, str]] = set()     # transient fault: raise only the FIRST time that calculation is executed
+        self.fail_once_hits: Dict[Tuple[str, str], int] = {}   # executions of a fail_once calculation that reached the fault point
         self.fail_validate_in: Set[str] = set()
         self.fail_validate_out: Set[str] = set()
         for g in spec["groups"]:
@@ -215,7 +217,7 @@ class Universe:
                 names = sorted(f.get_name() for f in features.features)
                 uni.listener.on_enter(gname, names, [], None, features)
                 for n in names:
-                    if (gname, n) in uni.fail:
+                    if uni.should_fail(gname, n):
                         raise RuntimeError(f"VERIF-FAULT calc {gname}.{n}")
                 out = native_table(uni._cfw_name_of(cls, features), {k: list(v) for k, v in data.items()})
                 uni.listener.on_exit(gname, names)
@@ -232,7 +234,7 @@ class Universe:
                 names = sorted(f.get_name() for f in features.features)
                 uni.listener.on_enter(gname, names, [], None, features)
                 for n in names:
-                    if (gname, n) in uni.fail:
+                    if uni.should_fail(gname, n):
                         raise RuntimeError(f"VERIF-FAULT calc {gname}.{n}")
                 if g.get("delay_ms"):
                     import time as _t
@@ -273,7 +275,7 @@ class Universe:
                 new: Dict[str, List[Any]] = {}
                 n_rows = nrows(data)
                 for n in names:
-                    if (gname, n) in uni.fail:
+                    if uni.should_fail(gname, n):
                         raise RuntimeError(f"VERIF-FAULT calc {gname}.{n}")
                     d = _f[n]
                     vals = [d["c0"]] * n_rows
@@ -343,6 +345,15 @@ class Universe:
     def group_display(self, cls: type) -> str:
         n = cls.__name__
         return n.split("_", 1)[1] if n.startswith(self.tag + "_") else n
+
+    def should_fail(self, gname: str, n: str) -> bool:
+        if (gname, n) in self.fail:
+            return True
+        if (gname, n) in self.fail_once:
+            k = self.fail_once_hits.get((gname, n), 0)
+            self.fail_once_hits[(gname, n)] = k + 1
+            return k == 0
+        return False
 
     def api_data(self) -> Optional[Dict[str, Dict[str, Any]]]:
         d = {g["key"]: {k: list(v) for k, v in g["cols"].items()} for g in self.spec["groups"] if g["kind"] == "api"}
